@@ -2,6 +2,7 @@
    Property theorems only.  The admission guards and refund expressions are those generated from
    scheduler.py on this run (coq/gen/SchedGen.v); see proofs/SchedInst.v for the instantiation lemmas. *)
 From TS Require Import model.Base gen.SchedGen model.Sched proofs.SchedInst proofs.SchedProofs proofs.SchedLive proofs.SchedRead.
+From TS Require Import model.Dispatch gen.DispatchGen proofs.DispatchInst.
 
 (* SAVE.  For every request list whose buffers are no larger than declared (0 <= bsz <= cost), every budget
    B >= 0, every concurrency cap K >= 0, every initial visit order and EVERY sequence of completion events
@@ -94,3 +95,11 @@ Proof.
   cbv zeta. split; [|vm_compute; reflexivity].
   unfold wf_reqs. repeat apply Forall_cons; try apply Forall_nil; cbn; lia.
 Qed.
+
+(* The budget B of the theorems above is the per-rank budget: tied to the source, memory_budget_bytes in snapshot.py is
+   assigned from get_process_memory_budget_bytes only (take, restore; in _get_state_dict_for_manifest only when the caller
+   gave none) and every hop down to sync_execute_write_reqs / sync_execute_read_reqs passes it on unchanged.  g_budget_hops
+   is regenerated on every run by translator/gen_dispatch.py. *)
+Theorem C10_generated_budget_reaches_schedulers : forallb (fun b : bool => b) g_budget_hops = true.
+Proof. exact budget_reaches_schedulers. Qed.
+Print Assumptions C10_generated_budget_reaches_schedulers.
